@@ -15,6 +15,7 @@ import (
 	"fmt"
 	"os"
 	"path/filepath"
+	"sort"
 	"strings"
 	"sync"
 	"testing"
@@ -22,8 +23,10 @@ import (
 	"github.com/tsawler/tabula"
 	"github.com/tsawler/tabula/contentstream"
 	"github.com/tsawler/tabula/htmldoc"
+	"github.com/tsawler/tabula/model"
 	"github.com/tsawler/tabula/rag"
 	"github.com/tsawler/tabula/reader"
+	"github.com/tsawler/tabula/tables"
 	"github.com/tsawler/tabula/text"
 	"pgregory.net/rapid"
 
@@ -38,7 +41,7 @@ import (
 // ---------------------------------------------------------------------------
 // documents, addressed by a small integer so that a case is replayable
 
-const nDocs = 44
+const nDocs = 46
 
 // Documents numbered dynBase and above are made on demand, each with private operators of its own (inside a
 // BX/EX compatibility section, ISO 32000-1 7.8.2, Table 32): the first parse of each is the first time the process
@@ -147,6 +150,27 @@ func getDoc(i int) *docSpec {
 	switch {
 	case i >= dynBase:
 		d = &docSpec{kind: "pdf", ext: ".pdf", data: dynDoc(i)}
+	case i >= 44:
+		// page 1 shows text with a font /F1 that has a ToUnicode map; page 2 also says /F1, but there it is a font
+		// the text extractor does not load (a Type 3 font; or no font of that name at all): whatever page 2 yields
+		// alone, it must yield after page 1 as well
+		tu := rawpdf.Stream("", string(pdfw.ToUnicodeCMap([]pdfw.MapEnt{{Code: 0x48, Text: "X"}, {Code: 0x45, Text: "Y"}, {Code: 0x4C, Text: "Z"}, {Code: 0x4F, Text: "W"}}, 1)))
+		p2res := "<< /Font << /F1 7 0 R >> >>"
+		if i == 45 {
+			p2res = "<< /ProcSet [/PDF /Text] >>"
+		}
+		d = &docSpec{kind: "pdf", ext: ".pdf", data: rawpdf.Build(map[int]string{
+			1:  "<< /Type /Catalog /Pages 2 0 R >>",
+			2:  "<< /Type /Pages /Kids [3 0 R 4 0 R] /Count 2 /MediaBox [0 0 612 792] >>",
+			3:  "<< /Type /Page /Parent 2 0 R /Resources << /Font << /F1 5 0 R >> >> /Contents 8 0 R >>",
+			4:  "<< /Type /Page /Parent 2 0 R /Resources " + p2res + " /Contents 9 0 R >>",
+			5:  "<< /Type /Font /Subtype /Type1 /BaseFont /Helvetica /ToUnicode 6 0 R >>",
+			6:  tu,
+			7:  "<< /Type /Font /Subtype /Type3 /FontBBox [0 0 750 750] /FontMatrix [0.001 0 0 0.001 0 0] /CharProcs << /sq 10 0 R >> /Encoding << /Type /Encoding /Differences [72 /sq] >> /FirstChar 72 /LastChar 72 /Widths [750] >>",
+			8:  rawpdf.Stream("", "BT /F1 12 Tf 72 700 Td (HELLO) Tj ET"),
+			9:  rawpdf.Stream("", "BT /F1 12 Tf 72 700 Td (HELLO) Tj ET"),
+			10: rawpdf.Stream("", "750 0 0 0 750 750 d1 0 0 750 750 re f"),
+		}, 1)}
 	case i >= 40:
 		d = &docSpec{kind: "html", ext: ".html", data: navDoc(i - 40)}
 	case i >= 36:
@@ -227,7 +251,7 @@ func docPath(i int) string {
 	return p
 }
 
-var ops = []string{"text", "markdown", "jsonl", "csv", "document", "contentstream", "sharedreader", "chunkops", "htmlnav"}
+var ops = []string{"text", "markdown", "jsonl", "csv", "document", "contentstream", "sharedreader", "chunkops", "htmlnav", "tables"}
 
 // runOp performs one extraction and returns a canonical byte string of its result.
 func runOp(doc int, op string) string {
@@ -270,6 +294,32 @@ func runOp(doc int, op string) string {
 			fmt.Fprintf(&b, "page %d %gx%g elements=%d\n%s\n", p.Number, p.Width, p.Height, len(p.Elements), p.ExtractText())
 			for _, e := range p.Elements {
 				fmt.Fprintf(&b, "  %v %+v\n", e.Type(), e.BoundingBox())
+			}
+		}
+		return b.String()
+	case "tables":
+		// the table detectors of the process-wide registry (tables.GetDetector), on a table-like page that
+		// depends on the document number only
+		page := model.NewPage(612, 792)
+		rows, cols := 3+doc%5, 2+doc%4
+		for i := 0; i < rows; i++ {
+			for j := 0; j < cols; j++ {
+				page.RawText = append(page.RawText, model.TextFragment{Text: fmt.Sprintf("d%dr%dc%d", doc, i, j), FontSize: 10,
+					BBox: model.BBox{X: float64(72 + j*(70+doc%7)), Y: float64(700 - i*(16+doc%5)), Width: 40, Height: 10}})
+			}
+		}
+		var b strings.Builder
+		names := tables.ListDetectors()
+		sort.Strings(names)
+		for _, name := range names {
+			det := tables.GetDetector(name)
+			if det == nil {
+				continue
+			}
+			ts, err := det.Detect(page)
+			fmt.Fprintf(&b, "detector %s err=%v tables=%d\n", name, err, len(ts))
+			for _, tb := range ts {
+				fmt.Fprintf(&b, "%+v\n%s\n", tb.BBox, tb.GetText())
 			}
 		}
 		return b.String()
